@@ -122,3 +122,16 @@ Definition dt_ok (fix11 : bool) (b : list N) : bool := match dt_parse fix11 b wi
 (** XSValue::validate for dt_dateTime: NoContent test, XMLString::trim, then parseDateTime *)
 Definition xsv_datetime_validate (fix11 : bool) (s : list N) : bool :=
   if all_spaces s then false else dt_ok fix11 (trim_ws s).
+
+(** the extra test of the repaired getTime (fixes/C09-datetime-empty-fraction.patch): a '.' right after the seconds that
+    is immediately followed by the time-zone sign.  With the patch such a string throws DateTime_ms_noDigit where the
+    code as it is goes on; everything else is unchanged, so the repaired parser is [dt_parse] guarded by this test *)
+Definition f29_shape (b : list N) : bool :=
+  let start := if at_ b 0 =? ch_minus then 1%nat else 0%nat in
+  match index_of b start (length b - start) ch_minus with
+  | None => false
+  | Some ysep =>
+      let fs := (ysep + 15)%nat in
+      (at_ b fs =? ch_dot) && (S fs <? length b)%nat &&
+      match find_utc b fs (length b - fs) with Some sg => (sg =? S fs)%nat | None => false end
+  end.
